@@ -49,6 +49,7 @@ const (
 	EvPeerEOF   = "peer-eof"   // peer saw its connection end
 	EvPeerRaw   = "peer-raw"   // peer wrote raw bytes
 	EvBkEnter   = "bk-enter"   // broker called the backend
+	EvBkStart   = "bk-start"   // the call left the simulator's gate and runs in the real backend
 	EvBkCommit  = "bk-commit"  // the backend invoked the ack (inside its critical section)
 	EvBkReturn  = "bk-return"  // backend call returned
 	EvAckRel    = "ack-release" // the broker's own ack closure was invoked
@@ -145,8 +146,25 @@ func NewWorld(cfg Config, seed uint64, res *core.Result) *World {
 	return w
 }
 
+// snap copies a packet so that later in-place changes by the system (the
+// resend loop sets Dup on the stored object) do not rewrite history.
+func snap(p packet.Generic) packet.Generic {
+	switch q := p.(type) {
+	case *packet.Publish:
+		c := *q
+		return &c
+	case *packet.Connect:
+		c := *q
+		return &c
+	}
+	return p
+}
+
 func (w *World) ev(e *Ev) *Ev {
 	e.Seq = rt.Tick()
+	if e.P != nil {
+		e.P = snap(e.P)
+	}
 	e.At = core.SimNow()
 	w.Hist = append(w.Hist, e)
 	var b strings.Builder
@@ -387,6 +405,7 @@ func (p *probeBackend) enter(call string, c *broker.Client, e *Ev) (int, error) 
 		pk := &parked{name: call, c: i, ch: make(chan struct{})}
 		w.parked = append(w.parked, pk)
 		<-pk.ch
+		w.ev(&Ev{K: EvBkStart, C: i, Call: call, N: n})
 	}
 	if w.BkFail[call] == n {
 		w.ev(&Ev{K: EvFault, C: i, Call: call, N: n, S: "backend call fails"})
@@ -819,6 +838,31 @@ func (w *World) Settle() {
 		return
 	}
 	w.Res.Violate(w.Res.Check, w.Res.Check+".livelock", "settle", "the system did not become quiescent within 100000 steps")
+}
+
+// Nudge performs up to n rounds of low-level progress without running to
+// quiescence and without releasing parked backend calls in order: parked calls
+// are released in seeded order, one per round.
+func (w *World) Nudge(n int) {
+	for i := 0; i < n; i++ {
+		wait()
+		w.Steps++
+		for _, p := range w.Peers[1:] {
+			if k := p.Link.A2B.InFlight(); k > 0 && !p.Link.A2B.Broken() && w.Sched.Chance(2, 3) {
+				w.deliverToBroker(p, w.chunk(k))
+			}
+			if k := p.Link.B2A.InFlight(); k > 0 && !p.Link.B2A.Broken() && w.Sched.Chance(2, 3) {
+				w.deliverToPeer(p, w.chunk(k))
+			}
+		}
+		if len(w.parked) > 0 && w.Sched.Chance(1, 2) {
+			j := w.Sched.Intn(len(w.parked))
+			pk := w.parked[j]
+			w.parked = append(w.parked[:j], w.parked[j+1:]...)
+			close(pk.ch)
+		}
+	}
+	wait()
 }
 
 // Advance lets virtual time pass (all timers that become due fire), then settles.
